@@ -618,7 +618,11 @@ but no other interpretation is applied
                     if requiredVersions and productName in requiredVersions:
                         product = Eups.findProduct(productName, requiredVersions[productName])
                     else:
-                        product, vroReason = Eups.findProductFromVRO(productName, vers, versExpr)
+                        # look where Eups.setup looks: the running flavor, then the fall-back flavors
+                        for flavor in utils.Flavor().getFallbackFlavors(Eups.flavor, includeMe=True):
+                            product, vroReason = Eups.findProductFromVRO(productName, vers, versExpr, flavor=flavor)
+                            if product:
+                                break
                     if not product:
                         raise ProductNotFound(productName)
 
